@@ -359,88 +359,93 @@ def r06_5(cx):
 
 @only(X86)
 def r15_4(cx):
+    from acverif.sym import simulate, SimError, summarize, canon, cstr, row_consistent, teval, by_cstr
+    from acverif.rl import param_at, Unsupported, EvalPanic
     b = cx.body('packed::pattern::is_equal_raw')
-    # width table of the small cases
-    sw = None
-    for blk, sc in b.switches():
-        if sc[0] == 'int' and is_var(sc[1], 'n'):
-            sw = (blk, sc)
-    ok = sw is not None
-    rows = {}
-    if ok:
-        blk, sc = sw
-        for v, tg in sc[2]:
-            r = b.reach(tg, cut_blocks=[blk])
-            widths = []
-            for y in sorted(r):
-                t = b.term(y)
-                if t['k'] == 'call' and re.search(r'const_ptr::(read|read_unaligned)$', short(t['callee']['path'])):
-                    ty = t['callee']['gargs'][0]
-                    widths.append(ty)
-            rows[v] = widths
-        SZ = {'u8': 1, 'u16': 2, 'u32': 4, '[u8; 3]': 3, 'u64': 8}
-        ok = all(v in rows for v in (0, 1, 2, 3)) and rows[0] == [] and all(len(rows[v]) == 2 and all(SZ.get(w) == v for w in rows[v]) for v in (1, 2, 3))
-    # small-case table only under n < 4
-    g = bool_gates(b, lambda x: cmp_norm(x) == cmp_norm(('op', 'Lt', ('v', 'n', b.locals_named('n')[0]), ('c', 4))))
-    okg = bool(g) and sw is not None and not reachable_without(b, [sw[0]], [e for x in g for e in x[2]])
-    cx.report('R15.4', b, 'small-widths', ok and okg, 'n = 1, 2, 3 read exactly n bytes from each side; n = 0 reads nothing; only under n < 4' if ok and okg else 'is_equal_raw small-case widths deviate: %s' % rows)
-    # n >= 4: 4-byte reads at x < xend stepping by 4, and once at xend = x + (n - 4)
-    xe = b.locals_named('xend')
-    ye = b.locals_named('yend')
-    okend = False
-    if xe and ye:
-        dx, dy = b.def_term(xe[0]), b.def_term(ye[0])
-        f = lambda d, v: d is not None and is_call(d, r'const_ptr::add$') and is_var(peel(d[2][0]), v) and is_call(d[2][1], r'core::num::(wrapping_sub|checked_sub)$|') and 'n' in tstr(d[2][1]) and '4' in tstr(d[2][1])
-        okend = f(dx, 'x') and f(dy, 'y')
-    loops = b.loops()
-    okloop = False
-    if len(loops) == 1:
-        h, blks = list(loops.items())[0]
-        lg = bool_gates(b, lambda x: x[0] == 'op' and x[1] == 'Lt' and is_var(x[2], 'x') and is_var(x[3], 'xend'))
-        reads = [(bi, t) for bi, t in b.calls(r'const_ptr::read_unaligned$') if bi in blks]
-        okw = all(t['callee']['gargs'][0] == 'u32' for bi, t in reads) and len(reads) == 2
-        okgd = bool(lg) and not reachable_without(b, [bi for bi, t in reads], [e for x in lg for e in x[2]], src=h)
-        steps = [tstr(t) for l in b.locals_named('x') + b.locals_named('y') for bi, si, t in var_defs_terms(b, l) if bi in blks]
-        okstep = sorted(steps) == ['core::ptr::const_ptr::add(x, 4)', 'core::ptr::const_ptr::add(y, 4)']
-        okloop = okw and okgd and okstep
-        # final read at xend / yend
-        fin = [(bi, b.call_term(bi, t), t) for bi, t in b.calls(r'const_ptr::read_unaligned$') if bi not in blks and bi in b.reach(h)]
-        okfin = len(fin) == 2 and all(t['callee']['gargs'][0] == 'u32' for bi, ct, t in fin) and sorted(tstr(expand_vars(b, ct[2][0], keep=('xend', 'yend')), 80).split('(')[-1].rstrip(')') for bi, ct, t in fin) == ['xend', 'yend']
-        okloop = okloop and okfin
-    cx.report('R15.4', b, 'wide-reads', okend and okloop, 'n >= 4: u32 reads while x < x + (n - 4), stepping by 4, plus one u32 read at x + (n - 4)' if okend and okloop else 'is_equal_raw wide-case reads deviate (end pointers=%s, loop=%s)' % (okend, okloop))
-    for path, lenarg in (("packed::pattern::Pattern::<'p>::is_prefix_raw", None), ('packed::pattern::is_prefix', None)):
+    X, Y, N = (cstr(param_at(b, i)) for i in (1, 2, 3))
+    SZ = {'u8': 1, 'u16': 2, 'u32': 4, '[u8; 3]': 3, 'u64': 8, 'u128': 16}
+    why_s = why_w = None
+    for n in range(0, 14):
+        try:
+            ev, end, ret = simulate(cx.facts, b, {X: 1000, Y: 2000, N: n}, extra_atoms=lambda t: 7 if is_call(t, r'const_ptr::(read|read_unaligned)$') else None)
+        except SimError as e:
+            why = 'is_equal_raw cannot be tabulated for n = %d: %s' % (n, e)
+            if n < 4:
+                why_s = why_s or why
+            else:
+                why_w = why_w or why
+            continue
+        reads = {1000: [], 2000: []}
+        why = None
+        for nm, blk, vals in ev:
+            if not re.search(r'const_ptr::(read|read_unaligned)$', nm):
+                continue
+            w = SZ.get(b.term(blk)['callee']['gargs'][0])
+            p = vals[0]
+            base = 1000 if p is not None and 1000 <= p < 2000 else 2000
+            if w is None or p is None:
+                why = 'a read of unknown width or address'
+                break
+            if p < base or p + w > base + n:
+                why = 'for n = %d a %d-byte read at offset %d leaves the %d bytes the caller vouched for' % (n, w, p - base, n)
+                break
+            reads[base].append((p - base, w))
+        if why is None:
+            if sorted(reads[1000]) != sorted(reads[2000]):
+                why = 'for n = %d the two sides are read at different offsets / widths' % n
+            else:
+                cov = set()
+                for o, w in reads[1000]:
+                    cov |= set(range(o, o + w))
+                if cov != set(range(n)):
+                    why = 'for n = %d the reads cover bytes %s, not all of 0..%d' % (n, sorted(cov), n)
+            if n < 4 and len(reads[1000]) > 1:
+                why = why or 'n = %d is compared with %d reads per side' % (n, len(reads[1000]))
+        if why:
+            if n < 4:
+                why_s = why_s or why
+            else:
+                why_w = why_w or why
+    cx.report('R15.4', b, 'small-widths', why_s is None, 'n = 1, 2, 3 read exactly n bytes from each side in one read; n = 0 reads nothing' if why_s is None else why_s)
+    cx.report('R15.4', b, 'wide-reads', why_w is None, 'n in 4..=13: every read stays inside [p, p+n) on both sides, both sides are read alike, and the reads cover all n bytes (4-byte steps plus one read at p+n-4); tabulated per n on the iteration summaries' if why_w is None else why_w)
+    for path in ("packed::pattern::Pattern::<'p>::is_prefix_raw", 'packed::pattern::is_prefix'):
         p = cx.body(path)
-        calls = [(bi, p.call_term(bi, t)) for bi, t in p.calls(r'packed::pattern::is_equal_raw$')]
-        ok = len(calls) == 1
-        if ok:
-            n_arg = expand_vars(p, calls[0][1][2][2], keep=('self', 'needle', 'haystack'))
-            # guarded by needle_len <= haystack_len
-            gates = []
-            for blk, sc in p.switches():
-                if sc[0] != 'bool':
-                    continue
-                c = strip_convs(expand_vars(p, sc[1], keep=('self', 'needle', 'haystack', 'end', 'start')))
-                if c[0] == 'op' and c[1] in ('Gt', 'Le', 'Lt', 'Ge'):
-                    s = tstr(c, 300)
-                    if ('distance' in s or 'len(haystack)' in s.replace('core::slice::', '')) and tstr(n_arg, 200) in s:
-                        # pass edge: the one taken when pattern length <= available length
-                        pl_first = tstr(c[2], 200) == tstr(n_arg, 200)
-                        if c[1] == 'Gt':
-                            pas = sc[3] if pl_first else sc[2]
-                        elif c[1] == 'Le':
-                            pas = sc[2] if pl_first else sc[3]
-                        elif c[1] == 'Lt':
-                            pas = sc[2] if not pl_first else []
+        rows = [r for r in summarize(cx.facts, p) if r.end == 'return']
+        why = None
+        raw = path.endswith('is_prefix_raw')
+        if raw:
+            SELF, START, END = (cstr(param_at(p, i)) for i in (1, 2, 3))
+            PL = 'core::slice::len(%s.0)' % SELF
+            HL = 'packed::ext::Pointer::distance(%s, %s)' % (END, START)
+        else:
+            HAY, NEEDLE = (cstr(param_at(p, i)) for i in (1, 2))
+            PL = 'core::slice::len(%s)' % NEEDLE
+            HL = 'core::slice::len(%s)' % HAY
+        try:
+            for pl in (0, 1, 2, 3):
+                for hl in (0, 1, 2, 3):
+                    at = by_cstr({PL: pl, HL: hl})
+                    sel = [r for r in rows if row_consistent(r, at)]
+                    if not sel:
+                        why = 'no path for pattern length %d and %d available bytes' % (pl, hl)
+                    for r in sel:
+                        eq = [canon(c) for c in r.calls(r'packed::pattern::is_equal_raw$')]
+                        if pl > hl:
+                            if eq or r.ret != ('c', 0):
+                                why = 'with %d available bytes a pattern of length %d is still compared (or reported as a prefix)' % (hl, pl)
                         else:
-                            pas = sc[2] if not pl_first else []
-                        gates.append([(blk, t) for t in pas])
-            ok = bool(gates) and not reachable_without(p, [calls[0][0]], [e for g in gates for e in g])
-        cx.report('R15.4', p, 'length-test', ok, 'is_equal_raw is reached only after pattern length <= available bytes, with n = pattern length' if ok else '%s calls is_equal_raw without the length test' % path.split('::')[-1])
-    ipr = cx.body("packed::pattern::Pattern::<'p>::is_prefix_raw")
-    hl = ipr.locals_named('haylen')
-    d = ipr.def_term(hl[0]) if hl else None
-    ok = d is not None and is_call(d, r'Pointer::distance$') and is_var(peel(d[2][0]), 'end') and is_var(peel(d[2][1]), 'start')
-    cx.report('R15.4', ipr, 'available', ok, 'available bytes = end - start' if ok else 'haylen is not end.distance(start)')
+                            if len(eq) != 1 or teval(eq[0][2][2], at) != pl or cstr(canon(r.ret)) != cstr(eq[0]):
+                                why = 'a pattern that fits is not decided by is_equal_raw(.., .., pattern length)'
+                            elif raw and not (cstr(eq[0][2][0]) == START and re.search(r'as_ptr\(%s\.0\)$' % re.escape(SELF), cstr(eq[0][2][1]))):
+                                why = 'is_equal_raw is not given (start, pattern bytes)'
+                            elif not raw and not (re.search(r'as_ptr\(%s\)$' % re.escape(HAY), cstr(eq[0][2][0])) and re.search(r'as_ptr\(%s\)$' % re.escape(NEEDLE), cstr(eq[0][2][1]))):
+                                why = 'is_equal_raw is not given (haystack, needle)'
+        except (Unsupported, EvalPanic) as e:
+            why = 'cannot evaluate: %s' % e
+        cx.report('R15.4', p, 'length-test', why is None, 'is_equal_raw is reached only after pattern length <= available bytes, with n = pattern length (all orderings tabulated)' if why is None else '%s: %s' % (path.split('::')[-1], why))
+        if raw:
+            used = any(HL in cstr(c) for r in rows for c, v in r.conds)
+            cx.report('R15.4', p, 'available', used, 'available bytes = end.distance(start)' if used else 'the length test does not use end.distance(start)')
 
 
 @only(X86)
